@@ -415,7 +415,9 @@ class Mon(object):
     def c17(self, line, fn, S, D, X, kind, res, cnt, fam):
         st = self.st
         st.checks += 1
-        total = sum(c for i, c in enumerate(cnt) if i != POWI_SITE)
+        # site 4 (powi's multiplication loop) is exempt only for powi itself (events of which never reach here):
+        # another function that ends up in that loop is doing operand-dependent work
+        total = sum(cnt)
         bound = 4 * D.n + 64
         k = "%s/%s" % (fn, D.name)
         m = self.maxiter.get(k)
